@@ -70,6 +70,7 @@ def requirements(tier):
 
 _dir = None
 _n = 0
+_n_calls = [0]
 
 
 def workfile():
@@ -289,20 +290,53 @@ def sink_calls(ctx, case, label, dump, obj, expect, kw, counter):
         except OSError:
             return None
 
-    # file name
+    # file name; the file may exist already and be longer than what is
+    # written now (rewriting a file): nothing of the old content may remain
+    junk = '# old content\n' + 'x: 1\n' * (
+        (len(expect[1]) // 4 + 50) if expect[0] == 'ok' else 50)
     path = workfile()
-    if os.path.exists(path):
+    _n_calls[0] += 1
+    if _n_calls[0] % 2:
+        with open(path, 'w', encoding='utf-8') as f:
+            f.write(junk)
+    elif os.path.exists(path):
         os.unlink(path)
     r, fd_ok, fdinfo = outcome(dump, obj, path, **kw)
     fdcheck('filename', fd_ok, fdinfo, r)
-    judge('filename', r, readback(path))
+    judge('filename' + ('-existing' if _n_calls[0] % 2 else ''), r,
+          readback(path))
     # Path
     path = workfile()
-    if os.path.exists(path):
+    if _n_calls[0] % 3 == 0:
+        with open(path, 'w', encoding='utf-8') as f:
+            f.write(junk)
+    elif os.path.exists(path):
         os.unlink(path)
     r, fd_ok, fdinfo = outcome(dump, obj, pathlib.Path(path), **kw)
     fdcheck('Path', fd_ok, fdinfo, r)
-    judge('Path', r, readback(path))
+    judge('Path' + ('-existing' if _n_calls[0] % 3 == 0 else ''), r,
+          readback(path))
+    # caller-opened text streams with other spellings / kinds of encoding
+    for enc in ('utf8', 'UTF-8', 'utf-16', 'utf-8-sig'):
+        if (_n_calls[0] + len(enc)) % 2:
+            continue
+        path = workfile()
+        try:
+            f = open(path, 'w', encoding=enc, newline='')
+        except LookupError:
+            continue
+        try:
+            r, fd_ok, fdinfo = outcome(dump, obj, f, **kw)
+        finally:
+            f.close()
+        try:
+            with open(path, 'rb') as fb:
+                got = fb.read().decode(enc, 'surrogateescape')
+        except (OSError, UnicodeError):
+            got = None
+        if enc == 'utf-8-sig' and got and got.startswith('\ufeff'):
+            got = got[1:]
+        judge('textfile-%s' % enc, r, got)
     # open text file
     path = workfile()
     f = open(path, 'w', encoding='utf-8', newline='')
